@@ -21,7 +21,8 @@ VARIABLE l
 I3(a) == Inst(a[1], a[2], a[3])
 FSeq(f) == <<f.y, f.m, f.d, f.h, f.mi, f.s, f.wd>>
 Resolved(i) == {RoundMilli(i), TruncMilli(i)}
-InRange(i) == i.dn \in -719162..2932896 /\ i.sod \in 0..86399 /\ i.us \in 0..999999
+\* years 1..9999, plus one day on either side (a double next to the last microsecond of the range may round across it)
+InRange(i) == i.dn \in -719163..2932897 /\ i.sod \in 0..86399 /\ i.us \in 0..999999
 
 FormatResolved(fmt, r) ==
     LET f == Fields(r) IN
